@@ -663,7 +663,16 @@ func (c *Ctx) ParamSchema(in string, label string) *Schema {
 	s := p.Schema()
 	// (RFC1123Z text contains a comma: not inside form-style arrays)
 	isArray := in == "query" && rapid.IntRange(0, 3).Draw(t, label+"_array") == 0 && p.Layout() != "time.RFC1123Z"
-	if rapid.IntRange(0, 3).Draw(t, label+"_ref") == 0 && c.AllowSchema(s, "component") {
+	// (arrays of a string component: the one array whose elements need no parsing, only a conversion)
+	if isArray && rapid.IntRange(0, 3).Draw(t, label+"_array_of_strings") == 0 {
+		p = Prims[0]
+		s = p.Schema()
+	}
+	refOdds := 3
+	if isArray {
+		refOdds = 1
+	}
+	if rapid.IntRange(0, refOdds).Draw(t, label+"_ref") == 0 && c.AllowSchema(s, "component") {
 		name := c.CompName("Prm", label)
 		r := c.AddSchema(name, s)
 		if c.AllowSchema(r, in) {
